@@ -189,7 +189,7 @@ theorem PcapRecord_roundtrip (r : Rec) (rest : Bytes) (h : Rec_WF r) :
 
 open Acra.Model.Pcap Acra.Lemmas.Pcap in
 /-- witnesses: a record whose length fields are in step with a non-empty payload (`Rec_WF`, hence `Rec_fits`);
-    `Rec_fits` alone also admits a record whose `orig_len` exceeds the captured length (a snapped packet) -/
+    `Rec_fits` alone also allows a record whose `orig_len` exceeds the captured length (a snapped packet) -/
 example : Rec_WF { Rec.fresh with sec := 0x5F000000, usec := 999999, incl_len := 3, orig_len := 3, payload := [1, 2, 3] } ∧
     Rec_fits { Rec.fresh with sec := 1, usec := 2, incl_len := 3, orig_len := 1500, payload := [1, 2, 3] } := by
   simp [Rec_WF, Rec_fits]
